@@ -131,7 +131,7 @@ Expect(c) == IF Failing(c) # {} THEN "CPU"
 Z == [op |-> "", dt |-> "int8", dt2 |-> "int8", odt |-> "int8", wt |-> "int8", bt |-> "none",
       b |-> 1, h |-> 1, w |-> 1, c |-> 1, kh |-> 1, kw |-> 1, sh |-> 1, sw |-> 1, dh |-> 1, dw |-> 1,
       pad |-> "SAME", oc |-> 1, mult |-> 1, wic |-> 1, wconst |-> TRUE, wfill |-> "rand", brank |-> 1, bbits |-> 11,
-      faf |-> "NONE", paq |-> "none", s1 |-> <<>>, s2 |-> <<>>, so |-> <<>>, hasq |-> TRUE, qmatch |-> TRUE,
+      faf |-> "NONE", paq |-> "none", wzp |-> 0, s1 |-> <<>>, s2 |-> <<>>, so |-> <<>>, hasq |-> TRUE, qmatch |-> TRUE,
       sconst |-> TRUE, knd |-> FALSE, axis |-> "nominal", axis2 |-> ""]
 
 Nom(op) ==
@@ -177,7 +177,7 @@ ConvLikeU(op) ==
   \cup {[w |-> v, h |-> 2, kh |-> 1, kw |-> 1, axis |-> "dim_w"] : v \in DimPts}
   \cup {[wt |-> "int16", axis |-> "weights_16bit"], [wconst |-> FALSE, axis |-> "weights_dynamic"],
         [brank |-> 2, axis |-> "bias_2d"], [bt |-> "int16", axis |-> "bias_type"], [bt |-> "none", axis |-> "no_bias"],
-        [paq |-> "weights", axis |-> "per_axis_weights"]}
+        [paq |-> "weights", axis |-> "per_axis_weights"], [wzp |-> 3, axis |-> "weights_zero_point"]}
   \cup {[dt |-> "int16", odt |-> "int16", bt |-> "int64", bbits |-> v, axis |-> "bias_bits"] :
             v \in {BiasBits[op] - 1, BiasBits[op], BiasBits[op] + 1}}
   \cup {[pad |-> "VALID", axis |-> "padding"]}
